@@ -1,6 +1,6 @@
 (* C19/Proofs.v -- lemmas about the geometry model at R (rt := sqrt). *)
 From Coq Require Import ZArith QArith Reals Lra Lia Psatz Nsatz List Bool.
-From Verif Require Import Base.Num C19.Model.
+From Verif Require Import Base.Num C19.Model Gen.GeometryFormulas.
 Import ListNotations.
 Local Open Scope R_scope.
 
@@ -612,21 +612,21 @@ Proof.
 Qed.
 Lemma add2_sub2_cancel (p t : V2) : sub2 (add2 p t) t = p.
 Proof. d2 p; d2 t. unf. pair_eq; ring. Qed.
-(* repaired __getitem__ (un-translated position passed on): the slice IS the same geometry *)
-Lemma par2d_getitem_fixed_l (pos : V2) (ax : option V2) (tr : V2) (g : par2d) :
-  mk_par2d sqrt pos ax tr = Some g -> par2d_getitem sqrt true g ax = Some g.
+(* __getitem__ (un-translated position passed on): the slice IS the same geometry *)
+Lemma par2d_getitem_same_l (pos : V2) (ax : option V2) (tr : V2) (g : par2d) :
+  mk_par2d sqrt pos ax tr = Some g -> par2d_getitem sqrt g ax = Some g.
 Proof.
   intros Hg. destruct (mk_par2d_fields _ _ _ _ Hg) as [Hp Ht].
   unfold par2d_getitem. rewrite Hp, Ht, add2_sub2_cancel. exact Hg.
 Qed.
-(* current __getitem__ (det_pos_init=self.det_pos_init, translation=self.translation): whenever it
-   succeeds, the slice's det_pos_init is off by exactly the translation *)
-Lemma par2d_getitem_current_l (pos : V2) (ax : option V2) (tr : V2) (g g' : par2d) :
-  mk_par2d sqrt pos ax tr = Some g -> par2d_getitem sqrt false g ax = Some g' ->
+(* the defect repaired by 388a3ff, as a statement about the explicit old call: passing the translated
+   position together with the translation moves det_pos_init by exactly the translation *)
+Lemma par2d_getitem_old_l (pos : V2) (ax : option V2) (tr : V2) (g g' : par2d) :
+  mk_par2d sqrt pos ax tr = Some g -> mk_par2d sqrt (p2_pos g) ax (p2_tr g) = Some g' ->
   p2_pos g' = add2 (p2_pos g) tr /\ (tr <> (0, 0) -> p2_pos g' <> p2_pos g).
 Proof.
   intros Hg Hs. destruct (mk_par2d_fields _ _ _ _ Hg) as [Hp Ht].
-  unfold par2d_getitem in Hs. destruct (mk_par2d_fields _ _ _ _ Hs) as [Hp' Ht'].
+  destruct (mk_par2d_fields _ _ _ _ Hs) as [Hp' Ht'].
   rewrite Ht in Hp'. split; [exact Hp'|].
   intros Hne He. apply Hne. rewrite Hp' in He. destruct (p2_pos g) as [x0 x1]. d2 tr. unf.
   injection He as E0 E1. pair_eq; lra.
@@ -860,42 +860,51 @@ Proof.
   destruct (Hf eq_refl) as [Ho [Ha [Hb _]]]. repeat split; assumption.
 Qed.
 
-Lemma mk_curved_wf (fixed sph : bool) (a0 a1 : V3) (r : R) (d : det3d) :
-  mk_curved sqrt fixed sph a0 a1 r = Some d -> wf_det3' d.
+Lemma mk_curved_nonzero (fixed sph : bool) (a0 a1 : V3) (r : R) (d : det3d) :
+  mk_curved sqrt fixed sph a0 a1 r = Some d ->
+  norm3 sqrt a0 <> 0 /\ norm3 sqrt a1 <> 0 /\ 0 < r /\
+  exists m, (if fixed then Some (curved_frame sqrt a0 a1) else curved_rot sqrt a0 a1) = Some m /\
+            d = (if sph then Sph (sdiv3 a0 (norm3 sqrt a0)) (sdiv3 a1 (norm3 sqrt a1)) r m
+                 else Cyl (sdiv3 a0 (norm3 sqrt a0)) (sdiv3 a1 (norm3 sqrt a1)) r m).
 Proof.
   unfold mk_curved. numR.
   destruct (Reqb_spec (norm3 sqrt (cross3 a0 a1)) 0) as [Hn|Hn]; [intros Hx; discriminate Hx|].
-  destruct (Reqb_spec (dot3 a0 a1) 0) as [Hp|Hp]; cbn [negb]; [|intros Hx; discriminate Hx].
+  destruct (Rltb _ _); [intros Hx; discriminate Hx|].
   destruct (Rleb_spec r 0) as [Hr|Hr]; [intros Hx; discriminate Hx|].
   assert (Hc : cross3 a0 a1 <> (0, 0, 0)) by (intros Hc; apply Hn, norm3_zero_iff, Hc).
   assert (H0 : norm3 sqrt a0 <> 0).
   { intros H0. apply norm3_zero_iff in H0. subst a0. apply Hc, cross3_zero_l. }
   assert (H1 : norm3 sqrt a1 <> 0).
   { intros H1. apply norm3_zero_iff in H1. subst a1. apply Hc, cross3_zero_r. }
-  destruct fixed.
-  - intros [= <-]. destruct (curved_frame_spec a0 a1 H0 H1 Hp) as [Ho _].
-    destruct sph; cbn; repeat split; try (apply normalize3_unit; assumption); try lra; exact Ho.
-  - destruct (curved_rot sqrt a0 a1) as [m|] eqn:Em; [|intros Hx; discriminate Hx].
-    intros [= <-]. destruct sph; cbn; repeat split; try (apply normalize3_unit; assumption); try lra;
-      apply (curved_rot_orth _ _ _ Em).
+  destruct (if fixed then _ else _) as [m|]; [|intros Hx; discriminate Hx].
+  intros [= <-]. repeat split; try assumption; try lra. exists m. split; [reflexivity|]. destruct sph; reflexivity.
+Qed.
+
+(* the code as it is ([fixed = false]): the alignment matrix is a product of two rotations *)
+Lemma mk_curved_wf (sph : bool) (a0 a1 : V3) (r : R) (d : det3d) :
+  mk_curved sqrt false sph a0 a1 r = Some d -> wf_det3' d.
+Proof.
+  intros Hd. destruct (mk_curved_nonzero _ _ _ _ _ _ Hd) as [H0 [H1 [Hr [m [Em ->]]]]].
+  destruct sph; cbn; repeat split; try (apply normalize3_unit; assumption); try lra;
+    apply (curved_rot_orth _ _ _ Em).
+Qed.
+(* the repaired alignment ([fixed = true]) for exactly perpendicular axes *)
+Lemma mk_curved_fixed_wf (sph : bool) (a0 a1 : V3) (r : R) (d : det3d) :
+  dot3 a0 a1 = 0 -> mk_curved sqrt true sph a0 a1 r = Some d -> wf_det3' d.
+Proof.
+  intros Hp Hd. destruct (mk_curved_nonzero _ _ _ _ _ _ Hd) as [H0 [H1 [Hr [m [Em ->]]]]].
+  injection Em as <-. destruct (curved_frame_spec a0 a1 H0 H1 Hp) as [Ho _].
+  destruct sph; cbn; repeat split; try (apply normalize3_unit; assumption); try lra; exact Ho.
 Qed.
 
 (* with the repaired alignment, surface_deriv(0, 0) = radius * axes (cylinder: height axis itself) *)
 Lemma mk_curved_fixed_deriv (sph : bool) (a0 a1 : V3) (r u v : R) (d : det3d) :
-  mk_curved sqrt true sph a0 a1 r = Some d ->
+  dot3 a0 a1 = 0 -> mk_curved sqrt true sph a0 a1 r = Some d ->
   deriv3 d (u, v, (1, 0), (1, 0)) =
   (scal3 r (fst (det3_axes d)), if sph then scal3 r (snd (det3_axes d)) else snd (det3_axes d)).
 Proof.
-  unfold mk_curved. numR.
-  destruct (Reqb_spec (norm3 sqrt (cross3 a0 a1)) 0) as [Hn|Hn]; [intros Hx; discriminate Hx|].
-  destruct (Reqb_spec (dot3 a0 a1) 0) as [Hp|Hp]; cbn [negb]; [|intros Hx; discriminate Hx].
-  destruct (Rleb_spec r 0) as [Hr|Hr]; [intros Hx; discriminate Hx|].
-  assert (Hc : cross3 a0 a1 <> (0, 0, 0)) by (intros Hc; apply Hn, norm3_zero_iff, Hc).
-  assert (H0 : norm3 sqrt a0 <> 0).
-  { intros H0. apply norm3_zero_iff in H0. subst a0. apply Hc, cross3_zero_l. }
-  assert (H1 : norm3 sqrt a1 <> 0).
-  { intros H1. apply norm3_zero_iff in H1. subst a1. apply Hc, cross3_zero_r. }
-  intros [= <-]. destruct (curved_frame_spec a0 a1 H0 H1 Hp) as [_ [Ha Hb]].
+  intros Hp Hd. destruct (mk_curved_nonzero _ _ _ _ _ _ Hd) as [H0 [H1 [Hr [m [Em ->]]]]].
+  injection Em as <-. destruct (curved_frame_spec a0 a1 H0 H1 Hp) as [_ [Ha Hb]].
   set (m := curved_frame sqrt a0 a1) in *.
   destruct sph; cbn [deriv3 det3_axes fst snd]; numR; rewrite !mv3_scal.
   - f_equal; f_equal.
@@ -955,9 +964,9 @@ Proof.
   all: destruct curv; [apply (mk_circ_wf _ _ _ Ed) | apply (mk_flat1_wf _ _ Ed)].
 Qed.
 
-Lemma mk_cone_wf (fixed : bool) (rs rd : R) (curv : curv3) (pitch off : R) (axis : V3) (s2d : option V3)
+Lemma mk_cone_wf (rs rd : R) (curv : curv3) (pitch off : R) (axis : V3) (s2d : option V3)
     (axes : option (V3 * V3)) (tr : V3) (g : cone) :
-  mk_cone sqrt fixed rs rd curv pitch off axis s2d axes tr = Some g ->
+  mk_cone sqrt false rs rd curv pitch off axis s2d axes tr = Some g ->
   dot3 (c_axis g) (c_axis g) = 1 /\ dot3 (c_s2d g) (c_s2d g) = 1 /\ wf_det3' (c_det g) /\
   0 <= c_rs g /\ 0 <= c_rd g /\ ~ (c_rs g = 0 /\ c_rd g = 0) /\
   c_tr g = tr /\ c_pitch g = pitch /\ c_off g = off.
@@ -975,7 +984,7 @@ Proof.
   all: intros [= <-]; cbn.
   all: repeat split; try lra; try (apply (unit_axis_some _ _ Eu)); try (apply normalize3_unit, Hn);
     try (intros [A B]; lra).
-  all: destruct curv; [apply (mk_flat2_wf' _ _ _ Ed) | apply (mk_curved_wf _ _ _ _ _ _ Ed) | apply (mk_curved_wf _ _ _ _ _ _ Ed)].
+  all: destruct curv; [apply (mk_flat2_wf' _ _ _ Ed) | apply (mk_curved_wf _ _ _ _ _ Ed) | apply (mk_curved_wf _ _ _ _ _ Ed)].
 Qed.
 
 (* ------------------------------------------------------------ frommatrix *)
@@ -1304,15 +1313,224 @@ Proof.
   destruct (Reqb rs 0 && Reqb rd 0); [discriminate Hg'|]. injection Hg' as ->.
   assert (Hd' : d = (if sph then Sph (mv3 m (1, 0, 0)) (mv3 m (0, 0, 1)) r (curved_frame sqrt (mv3 m (1, 0, 0)) (mv3 m (0, 0, 1)))
                      else Cyl (mv3 m (1, 0, 0)) (mv3 m (0, 0, 1)) r (curved_frame sqrt (mv3 m (1, 0, 0)) (mv3 m (0, 0, 1))))).
-  { destruct sph; unfold mk_curved in Hd; numR;
-      destruct (Reqb _ 0); try discriminate Hd; destruct (negb _); try discriminate Hd;
-      destruct (Rleb r 0); try discriminate Hd; injection Hd as <-;
+  { destruct sph; destruct (mk_curved_nonzero _ _ _ _ _ _ Hd) as [_ [_ [_ [m' [Em ->]]]]]; injection Em as <-;
       rewrite !(sqrt_1_div3 _ U1), !(sqrt_1_div3 _ U3); reflexivity. }
   subst d.
   apply cone_detpoint_image; try reflexivity; try exact Hm.
   cbn [c_det cone_default_curved]. destruct p as [[[u v] [cu su]] [cv sv]].
   destruct sph; cbn [surf3]; unfold curved_transl, frame0; numR;
     rewrite !(curved_frame_image m _ _ _ Hm E1 E3), !(mv3_add m), !(mv3_scal m); reflexivity.
+Qed.
+
+(* ================= round 3: slicing of the other classes, Euler frommatrix, factories ================= *)
+
+Lemma tiny_small : 0 < @tiny R _ < 1.
+Proof. unfold tiny, of_Q; cbn [Qnum Qden]; numR. lra. Qed.
+Lemma norm3_unit (v : V3) : dot3 v v = 1 -> norm3 sqrt v = 1.
+Proof. intros Hu. unfold norm3. numR. rewrite Hu. apply sqrt_1. Qed.
+Lemma norm2_unit (v : V2) : dot2 v v = 1 -> norm2 sqrt v = 1.
+Proof. intros Hu. unfold norm2. numR. rewrite Hu. apply sqrt_1. Qed.
+
+(* transform_system never fails on unit vectors *)
+Lemma from_to3_some (f t : V3) : dot3 f f = 1 -> dot3 t t = 1 -> exists m, from_to3 sqrt f t = Some m.
+Proof.
+  intros Hf Ht. unfold from_to3. rewrite (norm3_unit _ Hf), (norm3_unit _ Ht). numR.
+  pose proof tiny_small as [T0 T1].
+  destruct (Rltb_spec 1 tiny) as [H|H]; [lra|]. cbn [orb].
+  destruct (Rltb _ tiny); eexists; reflexivity.
+Qed.
+Lemma from_to2_some (f t : V2) : dot2 f f = 1 -> dot2 t t = 1 -> exists m, from_to2 sqrt f t = Some m.
+Proof.
+  intros Hf Ht. unfold from_to2. rewrite (norm2_unit _ Hf), (norm2_unit _ Ht). numR.
+  pose proof tiny_small as [T0 T1].
+  destruct (Rltb_spec 1 tiny) as [H|H]; [lra|]. cbn [orb]. eexists; reflexivity.
+Qed.
+Lemma tsys3_some (v d : V3) : dot3 v v = 1 -> dot3 d d = 1 -> exists m, tsys3 sqrt v d = Some m.
+Proof.
+  intros Hv Hd. unfold tsys3. rewrite (norm3_unit _ Hv), (norm3_unit _ Hd). numR.
+  destruct (Reqb_spec 1 0) as [H|H]; [lra|]. cbn [andb negb].
+  destruct (allclose3 _ _); [eexists; reflexivity | apply from_to3_some; assumption].
+Qed.
+Lemma tsys2_some (v d : V2) : dot2 v v = 1 -> dot2 d d = 1 -> exists m, tsys2 sqrt v d = Some m.
+Proof.
+  intros Hv Hd. unfold tsys2. rewrite (norm2_unit _ Hv), (norm2_unit _ Hd). numR.
+  destruct (Reqb_spec 1 0) as [H|H]; [lra|]. cbn [andb negb].
+  destruct (allclose2 _ _); [eexists; reflexivity | apply from_to2_some; assumption].
+Qed.
+Lemma e3_unit : dot3 (0, 0, 1) (0, 0, 1) = 1. Proof. unf. ring. Qed.
+Lemma e2_unit2 : dot2 (0, 1) (0, 1) = 1. Proof. unf. ring. Qed.
+
+(* ---- slicing: geometries built with explicit initial vectors are rebuilt identically ---- *)
+(* Parallel3dAxisGeometry.__getitem__ passes the normalised axis and the original det_pos_init / det_axes_init *)
+Lemma par3a_getitem_same (axis pos : V3) (axes : V3 * V3) (tr : V3) (g : par3a) :
+  mk_par3a sqrt axis (Some pos) (Some axes) tr = Some g -> par3a_getitem sqrt g = Some g.
+Proof.
+  intros Hg. unfold par3a_getitem. unfold mk_par3a, obind in Hg.
+  destruct (tsys3 sqrt axis _) as [m|]; [|discriminate Hg]. destruct axes as [a0 a1].
+  destruct (unit_axis sqrt axis) as [ua|] eqn:Eu; [|discriminate Hg].
+  destruct (mk_flat2 sqrt a0 a1) as [d|] eqn:Ed; [|discriminate Hg]. injection Hg as <-.
+  cbn [pa_axis pa_pos_arg pa_axes_arg pa_tr]. unfold mk_par3a, obind.
+  pose proof (unit_axis_some _ _ Eu) as Hu.
+  destruct (tsys3_some ua (0, 0, 1) Hu e3_unit) as [m' Em]. numR. rewrite Em, Ed.
+  unfold unit_axis. numR.
+  destruct (Reqb_spec (norm3 sqrt ua) 0) as [H|H]; [rewrite (norm3_unit _ Hu) in H; lra|].
+  rewrite (sqrt_1_div3 _ Hu). reflexivity.
+Qed.
+
+(* FanBeamGeometry.__getitem__ passes the normalised src_to_det_init and the original det_axis_init *)
+Lemma fan_getitem_same (rs rd : R) (curv : option R) (s2d ax : V2) (tr : V2) (g : fan) :
+  mk_fan sqrt rs rd curv s2d (Some ax) tr = Some g -> fan_getitem sqrt g (Some ax) = Some g.
+Proof.
+  intros Hg. unfold fan_getitem. pose proof (mk_fan_wf _ _ _ _ _ _ _ Hg) as [Hu _].
+  unfold mk_fan, obind in Hg.
+  destruct (tsys2 sqrt s2d _) as [m|]; [|discriminate Hg]. cbv zeta in Hg.
+  destruct (iszero2 s2d) eqn:Ez; [discriminate Hg|].
+  destruct (match curv with None => _ | Some r => _ end) as [d|] eqn:Ed; [|discriminate Hg].
+  numR. destruct (Rltb rs 0) eqn:E1; [discriminate Hg|]. destruct (Rltb rd 0) eqn:E2; [discriminate Hg|].
+  destruct (Reqb rs 0 && Reqb rd 0)%bool eqn:E3; [discriminate Hg|]. injection Hg as <-.
+  cbn [f_rs f_rd f_s2d f_tr f_det] in *. unfold mk_fan, obind.
+  destruct (tsys2_some _ (0, 1) Hu e2_unit2) as [m' Em]. numR. rewrite Em.
+  assert (Hnz : iszero2 (sdiv2 s2d (norm2 sqrt s2d)) = false).
+  { unfold iszero2, eq2. destruct (sdiv2 s2d (norm2 sqrt s2d)) as [x y] eqn:Es. numR.
+    destruct (Reqb_spec x 0) as [Hx|Hx]; destruct (Reqb_spec y 0) as [Hy|Hy]; try reflexivity.
+    subst. unf. lra. }
+  rewrite Hnz, (sqrt_1_div _ Hu).
+  assert (Hdet : match (match d with Flat1 _ => None | Circ _ r => Some r end) with
+                 | None => mk_flat1 sqrt ax | Some r => mk_circ sqrt ax r end = Some d).
+  { destruct curv as [r|].
+    - unfold mk_circ in Ed |- *. destruct (_ =? _)%num; [discriminate Ed|]. destruct (_ <=? _)%num eqn:Er; [discriminate Ed|].
+      injection Ed as <-. rewrite Er. reflexivity.
+    - unfold mk_flat1 in Ed |- *. destruct (_ =? _)%num; [discriminate Ed|]. injection Ed as <-. reflexivity. }
+  rewrite Hdet, E1, E2, E3. reflexivity.
+Qed.
+
+(* ConeBeamGeometry.__getitem__ passes the normalised axis, the original src_to_det_init / det_axes_init, and
+   (since fix 23e139e) the curvature radii as a 2-tuple again -- all detector types *)
+Lemma cone_getitem_same (fixed : bool) (rs rd : R) (curv : curv3) (pitch off : R) (axis sd : V3) (axes : V3 * V3)
+    (tr : V3) (g : cone) :
+  mk_cone sqrt fixed rs rd curv pitch off axis (Some sd) (Some axes) tr = Some g -> cone_getitem sqrt fixed g = Some g.
+Proof.
+  intros Hg. unfold cone_getitem. unfold mk_cone, obind in Hg.
+  destruct (tsys3 sqrt axis _) as [m|]; [|discriminate Hg]. destruct axes as [a0 a1]. cbv zeta in Hg. numR.
+  destruct (Reqb (norm3 sqrt sd) 0) eqn:En; [discriminate Hg|].
+  destruct (unit_axis sqrt axis) as [ua|] eqn:Eu; [|discriminate Hg].
+  destruct (match curv with CFlat => _ | CCyl r => _ | CSph r => _ end) as [d|] eqn:Ed; [|discriminate Hg].
+  destruct (Rltb rs 0) eqn:E1; [discriminate Hg|]. destruct (Rltb rd 0) eqn:E2; [discriminate Hg|].
+  destruct (Reqb rs 0 && Reqb rd 0)%bool eqn:E3; [discriminate Hg|]. injection Hg as <-.
+  cbn [c_rs c_rd c_s2d c_axis c_tr c_pitch c_off c_det c_s2d_arg c_axes_arg]. unfold mk_cone, obind.
+  pose proof (unit_axis_some _ _ Eu) as Hu.
+  destruct (tsys3_some ua (0, 0, 1) Hu e3_unit) as [m' Em]. numR. rewrite Em, En.
+  unfold unit_axis. numR.
+  destruct (Reqb_spec (norm3 sqrt ua) 0) as [H|H]; [rewrite (norm3_unit _ Hu) in H; lra|].
+  rewrite (sqrt_1_div3 _ Hu).
+  assert (Hdet : match (match d with Flat2 _ _ => CFlat | Cyl _ _ r _ => CCyl r | Sph _ _ r _ => CSph r end) with
+                 | CFlat => mk_flat2 sqrt a0 a1 | CCyl r => mk_curved sqrt fixed false a0 a1 r
+                 | CSph r => mk_curved sqrt fixed true a0 a1 r end = Some d).
+  { destruct curv as [|r|r].
+    - unfold mk_flat2 in Ed |- *. destruct (_ =? _)%num; [discriminate Ed|]. injection Ed as <-. reflexivity.
+    - destruct (mk_curved_nonzero _ _ _ _ _ _ Ed) as [_ [_ [_ [mm [_ ->]]]]]. exact Ed.
+    - destruct (mk_curved_nonzero _ _ _ _ _ _ Ed) as [_ [_ [_ [mm [_ ->]]]]]. exact Ed. }
+  rewrite Hdet, E1, E2, E3. reflexivity.
+Qed.
+
+
+(* the default Parallel3dEulerGeometry *)
+Definition par3d_default : @par3d R :=
+  {| p3_pos := (0, 1, 0); p3_tr := (0, 0, 0); p3_det := Flat2 (1, 0, 0) (0, 0, 1) |}.
+
+(* Parallel3dEulerGeometry.frommatrix with a rotation matrix m and translation t: the INITIAL configuration is
+   t + m (default initial configuration), and the Euler rotation acts on it about the translation point *)
+Lemma par3d_frommatrix_spec (m : M3) (tr : V3) (g : par3d) (ph th ps : R * R) (p : dpar3) :
+  is_rot3 m -> par3d_frommatrix sqrt m tr = Some g ->
+  par3d_detpoint g ph th ps p =
+    add3 tr (mv3 (euler3 ph th ps) (mv3 m (par3d_detpoint par3d_default (1, 0) (1, 0) (1, 0) p))) /\
+  p3_tr g = tr.
+Proof.
+  intros Hm Hg. unfold par3d_frommatrix, mk_par3d, obind in Hg.
+  destruct (tsys3 sqrt _ _) as [m0|]; [|discriminate Hg].
+  assert (E1 : dot3 (1, 0, 0) (1, 0, 0) = 1) by (unf; ring).
+  assert (E3 : dot3 (0, 0, 1) (0, 0, 1) = 1) by (unf; ring).
+  pose proof (rot3_unit m _ Hm E1) as U1. pose proof (rot3_unit m _ Hm E3) as U3.
+  unfold mk_flat2 in Hg. numR.
+  destruct (Reqb (norm3 sqrt (cross3 (mv3 m (1, 0, 0)) (mv3 m (0, 0, 1)))) 0); [discriminate Hg|].
+  rewrite !(sqrt_1_div3 _ U1), !(sqrt_1_div3 _ U3) in Hg. injection Hg as <-.
+  split; [|reflexivity].
+  rewrite !par3d_rigid. cbn [p3_pos p3_tr p3_det par3d_default].
+  destruct p as [[[u v] [cu su]] [cv sv]]. cbn [surf3].
+  assert (Ei : euler3 (1, 0) (1, 0) (1, 0) = id3) by (unf; pair_eq; ring).
+  rewrite Ei, mv3_id.
+  assert (Z : forall w : V3, add3 (0, 0, 0) w = w) by (intros [[w0 w1] w2]; unf; pair_eq; ring).
+  rewrite Z. f_equal. f_equal.
+  rewrite !(mv3_add m), !(mv3_scal m), (mv3_sub m).
+  assert (Hz : mv3 m (0, 0, 0) = (0, 0, 0)) by (destruct m as [[[[a1 a2] a3] [[a4 a5] a6]] [[a7 a8] a9]]; unf; pair_eq; ring).
+  rewrite Hz.
+  destruct (mv3 m (0, 1, 0)) as [[x0 x1] x2], (mv3 m (1, 0, 0)) as [[y0 y1] y2], (mv3 m (0, 0, 1)) as [[z0 z1] z2].
+  d3 tr. unf. pair_eq; ring.
+Qed.
+
+(* ---- helical_geometry: offset_along_axis = min_z, pitch = (max_z - min_z) / num_turns: the source runs from
+   the bottom to the top of the volume over the angle range [0, 2 pi num_turns] ---- *)
+Lemma helical_span (g : cone) (zmin zmax turns twopi : R) :
+  turns <> 0 -> twopi <> 0 ->
+  c_off g = fst (helical_params zmin zmax turns) -> c_pitch g = snd (helical_params zmin zmax turns) ->
+  cone_along g 0 twopi 0 = zmin /\ cone_along g (twopi * turns) twopi 0 = zmax.
+Proof.
+  intros Ht Hp Ho Hpi. unfold cone_along, helical_params in *. cbn [fst snd] in *. numR. rewrite Ho, Hpi.
+  split; field; try split; assumption.
+Qed.
+
+(* ---- cone_beam_geometry (3-d): detector half height  sin(arctan t) (rs + rd),  t = |z| / (rs - rho).
+   sin(arctan t) = t / sqrt(1 + t^2); full coverage needs tan(arctan t) = t.  Before the pixel round-up the
+   chosen height is strictly too small for every t > 0 (recorded finding cone-beam-geometry-vertical-coverage) *)
+Lemma cone_vertical_refuted (t rs rd : R) : 0 < t -> 0 < rs + rd ->
+  cone_factory_halfheight sqrt t rs rd < t * (rs + rd).
+Proof.
+  intros Ht Hr. unfold cone_factory_halfheight. numR.
+  assert (H1 : 1 < sqrt (1 + t * t)).
+  { rewrite <- sqrt_1 at 1. apply sqrt_lt_1; nra. }
+  assert (Hq : t / sqrt (1 + t * t) < t).
+  { apply Rmult_lt_reg_r with (sqrt (1 + t * t)); [lra|]. unfold Rdiv. rewrite Rmult_assoc, Rinv_l by lra. nra. }
+  nra.
+Qed.
+
+(* ============ the hand-written model uses the formulas REGENERATED from the source ============ *)
+(* Gen/GeometryFormulas.v is re-emitted from odl/tomo/util/utility.py and odl/tomo/geometry/detector.py on every
+   run; a changed entry of a matrix literal or of a surface formula breaks these proofs. *)
+Lemma model_is_generated_rotations :
+  (forall c s : R, euler2 (c, s) = gen_euler2 c s) /\
+  (forall c1 s1 c2 s2 c3 s3 : R, euler3 (c1, s1) (c2, s2) (c3, s3) = gen_euler3 c1 s1 c2 s2 c3 s3) /\
+  (forall x y z c s : R, axis_rot (x, y, z) (c, s) = gen_axis_rot x y z c s).
+Proof.
+  repeat split; intros; unfold gen_euler2, gen_euler3, gen_axis_rot; unf; pair_eq; ring.
+Qed.
+Lemma generated_rotations_are_rotations :
+  (forall c s : R, c * c + s * s = 1 -> is_rot2 (gen_euler2 c s)) /\
+  (forall c1 s1 c2 s2 c3 s3 : R, c1 * c1 + s1 * s1 = 1 -> c2 * c2 + s2 * s2 = 1 -> c3 * c3 + s3 * s3 = 1 ->
+     is_rot3 (gen_euler3 c1 s1 c2 s2 c3 s3)) /\
+  (forall x y z c s : R, x * x + y * y + z * z = 1 -> c * c + s * s = 1 -> is_rot3 (gen_axis_rot x y z c s)).
+Proof.
+  destruct model_is_generated_rotations as [E2 [E3 EA]]. repeat split; intros.
+  - rewrite <- E2. apply (proj1 (euler2_rot (c, s) H)).
+  - rewrite <- E2. apply (proj2 (euler2_rot (c, s) H)).
+  - rewrite <- E3. apply (proj1 (euler3_rot (c1, s1) (c2, s2) (c3, s3) H H0 H1)).
+  - rewrite <- E3. apply (proj2 (euler3_rot (c1, s1) (c2, s2) (c3, s3) H H0 H1)).
+  - rewrite <- EA. apply (proj1 (axis_rot_rot (x, y, z) (c, s) H H0)).
+  - rewrite <- EA. apply (proj2 (axis_rot_rot (x, y, z) (c, s) H H0)).
+Qed.
+Lemma model_is_generated_surfaces :
+  (forall (ax : V2) (r u cu su : R),
+     surf2 (Circ ax r) (u, (cu, su)) = add2 (mv2 (circ_rot ax) (gen_circ_surf cu su r)) (circ_transl ax r) /\
+     deriv2 (Circ ax r) (u, (cu, su)) = mv2 (circ_rot ax) (gen_circ_deriv cu su r)) /\
+  (forall (a0 a1 : V3) (r : R) (m : M3) (u v cu su cv sv : R),
+     surf3 (Cyl a0 a1 r m) (u, v, (cu, su), (cv, sv)) = add3 (mv3 m (gen_cyl_surf cu su v r)) (curved_transl r m) /\
+     deriv3 (Cyl a0 a1 r m) (u, v, (cu, su), (cv, sv)) = (mv3 m (gen_cyl_dphi cu su r), mv3 m (0, 0, 1))) /\
+  (forall (a0 a1 : V3) (r : R) (m : M3) (u v cu su cv sv : R),
+     surf3 (Sph a0 a1 r m) (u, v, (cu, su), (cv, sv)) = add3 (mv3 m (gen_sph_surf cu su cv sv r)) (curved_transl r m) /\
+     deriv3 (Sph a0 a1 r m) (u, v, (cu, su), (cv, sv)) =
+       (mv3 m (gen_sph_dphi cu su cv sv r), mv3 m (gen_sph_dtheta cu su cv sv r))).
+Proof.
+  repeat split; intros; unfold surf2, deriv2, surf3, deriv3, gen_circ_surf, gen_circ_deriv, gen_cyl_surf, gen_cyl_dphi,
+    gen_sph_surf, gen_sph_dphi, gen_sph_dtheta; repeat f_equal; unf; pair_eq; ring.
 Qed.
 
 (* ---- statements assembled for Props.v ---- *)
@@ -1440,8 +1658,8 @@ Lemma constructed_wf_l :
   (forall rs rd curv s2d axis tr g, mk_fan sqrt rs rd curv s2d axis tr = Some g ->
      dot2 (f_s2d g) (f_s2d g) = 1 /\ wf_det2 (f_det g) /\ 0 <= f_rs g /\ 0 <= f_rd g /\
      ~ (f_rs g = 0 /\ f_rd g = 0) /\ f_tr g = tr) /\
-  (forall fixed rs rd curv pitch off axis s2d axes tr g,
-     mk_cone sqrt fixed rs rd curv pitch off axis s2d axes tr = Some g ->
+  (forall rs rd curv pitch off axis s2d axes tr g,
+     mk_cone sqrt false rs rd curv pitch off axis s2d axes tr = Some g ->
      dot3 (c_axis g) (c_axis g) = 1 /\ dot3 (c_s2d g) (c_s2d g) = 1 /\ wf_det3' (c_det g) /\
      0 <= c_rs g /\ 0 <= c_rd g /\ ~ (c_rs g = 0 /\ c_rd g = 0) /\
      c_tr g = tr /\ c_pitch g = pitch /\ c_off g = off).
